@@ -52,6 +52,25 @@ func bundledEngine(ctx context.Context, name string, hash, noise, depth uint, bo
 	}
 }
 
+// bundledEngineSeed is bundledEngine without book and with a Zobrist / noise seed.
+func bundledEngineSeed(ctx context.Context, name string, hash, noise, depth uint, seed int64) (*engine.Engine, []uci.Option) {
+	switch name {
+	case "turochamp":
+		s := search.AlphaBeta{Eval: search.Quiescence{Explore: turochamp.ConsiderableMovesOnly, Eval: search.Leaf{Eval: turochamp.Eval{}}}}
+		return engine.New(ctx, "TUROCHAMP", "t", s, engine.WithOptions(engine.Options{Depth: depth, Noise: noise, Hash: hash}), engine.WithTable(smallTable), engine.WithZobrist(seed)), nil
+	case "bernstein":
+		s := search.AlphaBeta{Explore: bernstein.PlausibleMoveTable{Limit: 7}.Explore, Eval: search.Leaf{Eval: bernstein.Eval{Factor: 20}}}
+		return engine.New(ctx, "BERNSTEIN", "t", s, engine.WithOptions(engine.Options{Depth: depth, Noise: noise, Hash: hash}), engine.WithTable(smallTable), engine.WithZobrist(seed)), nil
+	case "sargon":
+		points := &sargon.Points{}
+		s := sargon.Hook{Eval: search.AlphaBeta{Explore: sargon.SkipUnderPromotions, Eval: sargon.OnePlyIfChecked{Leaf: search.Leaf{Eval: points}}}, Hook: points}
+		return engine.New(ctx, "SARGON", "t", s, engine.WithOptions(engine.Options{Depth: depth, Noise: noise, Hash: hash}), engine.WithTable(smallTable), engine.WithZobrist(seed)), nil
+	default:
+		s := search.AlphaBeta{Eval: search.Leaf{Eval: eval.Material{}}}
+		return engine.New(ctx, "morlock", "t", s, engine.WithOptions(engine.Options{Depth: depth, Noise: noise, Hash: hash}), engine.WithTable(smallTable), engine.WithZobrist(seed)), nil
+	}
+}
+
 type uciEvent struct {
 	at   time.Time
 	line string
